@@ -160,6 +160,7 @@ o:
 			if !ok {
 				break o
 			}
+			clear(addrMap)
 			if err = bsw.Switch(ctx, msg, addrMap); err != nil {
 				return err
 			}
